@@ -17,6 +17,12 @@
 (***************************************************************************)
 EXTENDS Limits
 
+CONSTANT EVariant   \* "faithful", or a slip that seeded changes made (bin/selftest: TLC must refute each):
+                    \*   "deque_swapped"   the two physical slices of a deque are written second-first
+                    \*   "dur_micros"      the streaming path of a duration writes microseconds
+                    \*   "bits_per_byte"   the size-only computation of a bit sequence rounds to bytes, not storage words
+                    \*   "single_override" a one-member tuple overrides nothing (dispatch cycles)
+
 Methods4 == {"encode", "encode_to", "using_encoded", "encoded_size"}
 Default4(m) == CASE m = "encode" -> "encode_to" [] m = "encode_to" -> "using_encoded"
                  [] m = "using_encoded" -> "encode" [] m = "encoded_size" -> "encode_to"
@@ -26,7 +32,7 @@ Overrides(ty) ==
   CASE ty.k \in {"int", "bool", "optbool"} -> {"using_encoded"}
     [] ty.k = "unit" -> {"encode_to", "using_encoded", "encode"}
     [] ty.k \in {"option", "result", "array", "seq", "set", "map", "bits", "enum"} -> {"encode_to"}
-    [] ty.k = "tuple" -> IF Len(ty.ts) = 1 THEN {"encode", "encode_to", "using_encoded"} ELSE {"encode_to"}
+    [] ty.k = "tuple" -> IF Len(ty.ts) = 1 THEN (IF EVariant = "single_override" THEN {} ELSE {"encode", "encode_to", "using_encoded"}) ELSE {"encode_to"}
     [] ty.k \in {"nonzero", "str", "ptr", "compact"} -> {"encode", "encode_to", "using_encoded"}
     [] ty.k = "duration" -> {"encode"}
     [] ty.k = "named" -> {"encode_to"}
@@ -54,7 +60,9 @@ Writes(E, ty, v, split) ==
               IF BulkElems(E, ty)
               THEN IF ty.c = "deque"
                    THEN LET s == MinOf(split, Len(v)) IN
-                        pre \o <<Cat(SubSeq(v, 1, s))>> \o <<Cat(SubSeq(v, s + 1, Len(v)))>>     \* two slices
+                        IF EVariant = "deque_swapped"
+                        THEN pre \o <<Cat(SubSeq(v, s + 1, Len(v)))>> \o <<Cat(SubSeq(v, 1, s))>>
+                        ELSE pre \o <<Cat(SubSeq(v, 1, s))>> \o <<Cat(SubSeq(v, s + 1, Len(v)))>>     \* two slices
                    ELSE pre \o <<Cat(v)>>                                                         \* one bulk write
               ELSE pre \o CatAll([i \in 1..Len(v) |-> W(ty.t, v[i])])
     [] ty.k = "set" -> <<CompactEnc(FromNat(Len(v), 4))>> \o CatAll([i \in 1..Len(v) |-> W(ty.t, v[i])])
@@ -68,8 +76,11 @@ Writes(E, ty, v, split) ==
     [] ty.k = "bits" ->
          <<CompactEnc(FromNat(Len(v), 4))>>
          \o [q \in 1..BitWords(Len(v), ty.w) |-> [b \in 1..ty.w |-> BitsByte(v, (q - 1) * ty.w + b - 1, ty.w, ty.o)]]   \* one word per write
-    [] ty.k = "duration" -> <<v[1] \o v[2]>>                        \* encode() of the pair, written at once
+    [] ty.k = "duration" -> IF EVariant = "dur_micros" THEN <<v[1] \o Pad(<<>>, 4)>>      \* (sub-second part lost: any nanos < 1000)
+                            ELSE <<v[1] \o v[2]>>                  \* encode() of the pair, written at once
     [] ty.k = "named" -> W(E[ty.n], v)
 
-SizeOnly(E, ty, v, split) == FoldLeft(LAMBDA a, w : a + Len(w), 0, Writes(E, ty, v, split))
+SizeOnly(E, ty, v, split) ==
+  IF EVariant = "bits_per_byte" /\ ty.k = "bits" THEN Len(CompactEnc(FromNat(Len(v), 4))) + (Len(v) + 7) \div 8
+  ELSE FoldLeft(LAMBDA a, w : a + Len(w), 0, Writes(E, ty, v, split))
 =============================================================================
